@@ -52,6 +52,7 @@ def corpus_check(ctx, prop: str, oracle=None, *, stream: str = "base", nontrivia
     cases = corpus.get(stream, corpus.base_size(tier), seed, tier)
     dis = corpus.back_disagreements(cases, prop)
     dis += corpus.front_disagreements(cases, prop)
+    dis += corpus.pipeline_disagreements(cases, prop)
     l1_items = corpus.get_l1(seed, tier) if use_l1 else []
     dis += corpus.l1_disagreements(l1_items, prop)
     violations = []
@@ -81,6 +82,8 @@ def corpus_check(ctx, prop: str, oracle=None, *, stream: str = "base", nontrivia
         if c.job.get("view"):
             st = frontcmp.compare(c.answer, c.front)["status"]
             fstat[st] = fstat.get(st, 0) + 1
+    pstat = {"compared": sum(1 for c in cases if c.pipe is not None and c.job.get("out")),
+             "differ_on_this_projection": len(corpus.pipeline_disagreements(cases, prop))}
     sample = []
     for c in cases[:2]:
         stubs = corpus.impl_files(c)
@@ -99,6 +102,7 @@ def corpus_check(ctx, prop: str, oracle=None, *, stream: str = "base", nontrivia
         "violations": violations,
         "stats": {"packages": len(cases), "l1_api_objects": len(l1_items), "declarations_checked": checked, "runs_aborted": len(crashed),
                   "analyzer_model_vs_implementation_on_the_whole_api_object": fstat,
+                  "pipeline_model_view_to_files_vs_implementation": pstat,
                   "styles": {s: sum(1 for c in cases if c.pkg.style == s) for s in corpus.STYLES}},
         "cases": cases,
     }
